@@ -195,7 +195,12 @@ def c14_guards(g: int, d: int, a: int, b: int, flag: bool) -> int:
             if d != 2:
                 return SKIP
             if flag:
-                got = expect(lambda: Q.from_(t).select(t.a).returning(t.a), (QueryException,))
+                if a == 2:    # a term without any field: nothing for the validation loop to look at
+                    got = expect(lambda: Q.from_(t).select(t.a).returning(1), (QueryException,))
+                elif a == 3:  # the star shorthand
+                    got = expect(lambda: Q.from_(t).select(t.a).returning("*"), (QueryException,))
+                else:
+                    got = expect(lambda: Q.from_(t).select(t.a).returning(t.a), (QueryException,))
                 must = True
             else:
                 got = expect(lambda: Q.into(t).insert(1).returning(t.a).get_sql(dctx(d)), (QueryException,))
